@@ -806,6 +806,21 @@ def clippy_agreement(ctx, rule, G, parent, regions, srcs, sites):
     return inside
 
 
+def _mut_borrowed_between(B, x, a, b):
+    """Between the evaluation of node a and node b (pre-order), is the local at the root of x borrowed mutably (receiver of a
+    `&mut self` method such as pop / clear / truncate, or `&mut x` passed on)?  Then a fact about x established at a need not
+    hold at b."""
+    root = _hirq.root_local(_hirq.peel_refs(x))
+    lo, hi = B.order.get(id(a)), B.order.get(id(b))
+    if root is None or lo is None or hi is None or lo > hi:
+        return True
+    for n in B.nodes[lo:hi + 1]:
+        if n['k'] == 'AddrOf' and n.get('mut') and _hirq.root_local(_hirq.peel_refs(n['e'])) == root:
+            return True
+        if str(n.get('adj_ty') or '').startswith('&mut') and n['k'] in ('Path', 'Field', 'Index') and _hirq.root_local(n) == root:
+            return True
+    return False
+
 def guarded_index(facts, body_path, sp):
     """D7: `x[k]` with a literal k on a vector / slice panics when k >= x.len(); discharged when a comparison that holds at the
     indexing (an enclosing branch, an earlier early exit, or the left operand of the `&&` it stands in) gives x.len() > k, with x
@@ -835,11 +850,13 @@ def guarded_index(facts, body_path, sp):
             m = _hirq.const_eval(facts, q)
             if not isinstance(m, int) or isinstance(m, bool):
                 continue
-            if (oo == 'Eq' and m > k) or (oo == 'Gt' and m >= k) or (oo == 'Ge' and m > k) or (oo == 'Ne' and m == 0 and k == 0):
+            if ((oo == 'Eq' and m > k) or (oo == 'Gt' and m >= k) or (oo == 'Ge' and m > k) or (oo == 'Ne' and m == 0 and k == 0)) \
+                    and not _mut_borrowed_between(B, x, p, ix):
                 return 'guarded: a comparison that holds at the indexing gives len > %d' % k
     if k == 0:
         for c, truth in atoms:
-            if not truth and c['k'] == 'MethodCall' and c['name'] == 'is_empty' and not c['args'] and expr_eq(facts, c['recv'], x):
+            if not truth and c['k'] == 'MethodCall' and c['name'] == 'is_empty' and not c['args'] and expr_eq(facts, c['recv'], x) \
+                    and not _mut_borrowed_between(B, x, c, ix):
                 return 'guarded: `is_empty()` of the same vector is false at the indexing (the branch not taken by `if x.is_empty()`)'
     return None
 
